@@ -13,6 +13,7 @@ Counters understood by the runner (all measured inside eval_case):
     states, transitions, traces   (model_checking checks)
     skipped      sub-cases skipped because a listed finding invalidates them
     capped       1 if the case stopped at a cap (then nothing is 'exhaustive')
+    state_ids    list of canonical-state digests (deduplicated across all cases; adds to states)
     outcomes     list of short digests of observed outcomes (vacuity guard)
     samples      list of up to 2 explored sub-cases written out
     violations   list of {'key': {...}, 'detail': {...}}; key is structural
@@ -177,6 +178,7 @@ def run_check(prop, tier, seed, workers, budget_s=None, only=None):
     tot = dict(evals=0, nontrivial=0, states=0, transitions=0, traces=0, skipped=0, capped=0)
     extra = {}
     outcomes = set()
+    state_ids = set()
     samples = []
     viol = []           # (case_idx, violation)
     slow = []
@@ -188,12 +190,14 @@ def run_check(prop, tier, seed, workers, budget_s=None, only=None):
         for k, v in res.get('extra', {}).items():
             extra[k] = extra.get(k, 0) + int(v)
         outcomes.update(res.get('outcomes', []))
+        state_ids.update(res.get('state_ids', []))
         for s in res.get('samples', [])[:2]:
             samples.append(s)
         for v in res.get('violations', []):
             viol.append((i, v))
         slow.append((res['wall'], i))
     slow.sort(reverse=True)
+    tot['states'] += len(state_ids)      # state_ids: canonical states, deduplicated across shards
 
     # ---- classify violations
     findings = load_findings(prop)
